@@ -302,9 +302,10 @@ def check(prog: Program, tier: str) -> Result:
                                    "the index is a line number minus one" if worst <= 0 else "a later line is read under an explicit test against the number of lines" if guarded else
                                    f"a list of lines (indexes 0..n-1) is indexed by an expression that can be an ast line number as it is (1..n; bindings count from {sorted(bs)}): "
                                    "it reads the line AFTER the one the number names, and past the end when that is the last line (IndexError)")
+    _r13_6(prog, res, ret_units)
     _r13_3(prog, res)
     _r13_4(prog, res)
-    res.floors.update({"R13.1": 3, "R13.2": 1, "R13.3": 4, "R13.4": 3, "R13.5": 2})
+    res.floors.update({"R13.1": 3, "R13.2": 1, "R13.3": 4, "R13.4": 3, "R13.5": 2, "R13.6": 1})
     res.analysed.update({"position_expressions": n_expr, "functions_returning_positions": {f"{k[0]}.{k[1]}": v for k, v in sorted(ret_units.items())}})
     return res
 
@@ -394,6 +395,39 @@ def _r13_3(prog: Program, res: Result) -> None:
         res.decide(ok, "R13.3", lc.loc(), lc.fq, "line/column of a match", f"computed from the same line table as the spans ({sorted(t1 & t2)})" if ok else f"line/column use {sorted(t1)}, spans use {sorted(t2)}")
 
 
+def _r13_6(prog: Program, res: Result, ret_units) -> None:
+    """Looking at the character IN FRONT of a position: `text[pos - 1]`.  At position 0 there is none - and Python does not
+    raise, index -1 is the LAST character of the text.  `get_charnos` peeked for the `@` of a decorator this way: for a
+    def at offset 0 of a source that ends in `@` (a trailing comment `# someone@`, no final line break) the span became
+    (-1, end).  Instance: every subscript of a text with a character offset minus one; obligation: `pos > 0` (or
+    `pos >= 1`, or the truth of pos) on the path."""
+    from ..pathcond import PathAnalysis, entails
+    n = 0
+    for fn in prog.funcs.values():
+        u = None
+        for x in walk_own(fn.node):
+            if not (isinstance(x, ast.Subscript) and isinstance(x.ctx, ast.Load) and isinstance(x.value, ast.Name) and isinstance(x.slice, ast.BinOp)
+                    and isinstance(x.slice.op, ast.Sub) and isinstance(x.slice.right, ast.Constant) and x.slice.right.value == 1 and isinstance(x.slice.left, ast.Name)):
+                continue
+            ann = {a.arg: norm(a.annotation) for a in fn.node.args.posonlyargs + fn.node.args.args + fn.node.args.kwonlyargs if a.annotation is not None}
+            if ann.get(x.value.id) != "str":
+                continue
+            u = u or Units(prog, fn, ret_units)
+            if u.unit(x.slice.left) != CHAR:
+                continue
+            n += 1
+            pos = x.slice.left.id
+            pa = PathAnalysis(prog, fn)
+            worlds = pa.worlds_at(x)
+            tests = [ast.parse(t, mode="eval").body for t in (f"{pos} > 0", f"{pos} >= 1", f"{pos}", f"{pos} != 0")]
+            ok = bool(worlds) and any(all(entails(w.facts, pa.formula(t, w)) for w in worlds) for t in tests)
+            res.decide(ok, "R13.6", fn.loc(x), fn.fq, short(x, 60),
+                       f"read only when {pos} > 0" if ok else
+                       f"at {pos} == 0 this reads index -1, the LAST character of the text: the span of a definition at offset 0 can start at -1")
+    if n == 0:
+        raise AnalysisError("R13.6: no `text[pos - 1]` found")
+
+
 def _r13_4(prog: Program, res: Result) -> None:
     """match / fullmatch succeed exactly when SOME candidate is anchored: the candidates of find_replace come in
     tree-walk order, not in position order, so the scan must look at every candidate - the only early exit from the
@@ -460,6 +494,7 @@ def _r13_4(prog: Program, res: Result) -> None:
 from ..selftest import Variant  # noqa: E402
 
 VARIANTS: List[Variant] = [
+    Variant("peek-in-front-of-offset-zero", "FIRE", "core", "        start_charno > 0  # At the start of the source there is nothing in front, -1 is its last character\n        and source[start_charno - 1] == \"@\"", "        source[start_charno - 1] == \"@\"", "R13.6"),
     Variant("line-list-indexed-by-line-number-unbounded", "FIRE", "fixes",
             "            1 < safe_position_lineno < len(source_lines)  # The line below the last one is not indented\n", "            1 < safe_position_lineno\n", "R13.5"),
     Variant("line-list-indexed-by-line-number-minus-one", "SILENT", "fixes",
